@@ -111,33 +111,30 @@ def run(ck):
 
 
 def replay(ck):
+    """Forced cases are forced again on the current tree; findings of the unforced modes are reproduced by
+    running the same seeded driver again (same seed, up to the recorded run) and validating its log."""
     hb = ck.build("h-track")
     d = json.load(open(ck.replay))
+    seed = d.get("seed", ck.seed)
     cases = f"{ck.work}/replay_cases.ndjson"
-    traces, reruns = [], []
+    reruns = {}
     with open(cases, "w") as f:
         for it in d["items"]:
             c = it["case"]
             if c.get("mode") == "forced":
                 f.write(json.dumps(c["case"]) + "\n")
-            elif "trace" in c:
-                traces.append((c.get("mode"), c["trace"]))
-            elif c.get("kind") == "early-return" and "events" in c:
-                traces.append((c.get("mode"), [json.dumps({"name": "reset", "n": c.get("n", 16)})] +
-                               [json.dumps(e) for e in c["events"] if e.get("name") in ("guard", "waiter")]))
             else:
-                reruns.append(c)
+                run = c.get("run")
+                if run is None and "trace" in c:
+                    run = json.loads(c["trace"][0]).get("run", 0)
+                mode = c.get("mode")
+                reruns[mode] = max(reruns.get(mode, 0), int(run or 0))
     if open(cases).read().strip():
         ck.absorb(ck.harness(hb, ["replay", "counter", cases], "replay"), classify)
     tr_cfg = ck.cfg_with("Trace_Counter.cfg", {"N": 16})
-    for i, (mode, t) in enumerate(traces):
-        p = f"{ck.work}/replay_trace{i}.ndjson"
-        open(p, "w").write("\n".join(t) + "\n")
-        ok, rej = ck.tlc_trace("Trace_Counter", tr_cfg, p, tag=f"rt{i}")
-        if not ok:
-            ck.violation({"mode": mode, "kind": "trace-reject"}, json.dumps(rej)[:300], {"trace": t, "reject": rej})
-    for c in reruns[:2]:   # hangs: run the same seeded driver again up to that run
-        model = "redbclose" if c.get("mode") == "redb-close" else "counter"
-        s = ck.harness(hb, ["record", model, "--seed", c.get("seed", ck.seed), "--out", f"{ck.work}/rerun.ndjson",
-                            "--runs", int(c.get("run", 0)) + 1], "rerun")
+    for mode, run in reruns.items():
+        model = "redbclose" if mode == "redb-close" else "counter"
+        trace = f"{ck.work}/rerun_{model}.ndjson"
+        s = ck.harness(hb, ["record", model, "--seed", seed, "--out", trace, "--runs", run + 1], "rerun_" + model)
         ck.absorb(s, classify)
+        _validate(ck, tr_cfg, trace, mode)
